@@ -56,6 +56,15 @@ NEEDS = {
     "seed_C16c": ("C16", "a subgrid with i0 != j0 (xy2ll subtracts i0 from Y)", ""),
     "seed_C17c": ("C17", "a subgrid with i0 != j0 (two cooperating edits: Grid.origin in (row, column) order, unpacked as (i0, j0) in velocity/force_particles)",
                   "caught deductively for C17; the C02 sampling sweep used only subgrids with equal offsets and missed it: unequal offsets now"),
+    "seed_C01d": ("C01", "get_velocity2 with s != 1 (second-stage weight 1/2*s instead of 1/(2*s): coincides for Heun only)", ""),
+    "seed_C11d": ("C11", "horizontal diffusion without an advection scheme (U = V = np.zeros_like(X): both directions share one array, in-place adds)", ""),
+    "seed_C12d": ("C12", "Vtransform=2 + the same bathymetry array used for two sdepth calls, as Grid.__init__ does (H.ravel() view divided in place)",
+                  "caught by the bounded vertical sweep; the encoder validation reported that the interpreter disagreed with numpy on this code (ravel() was modelled as a copy): ravel() is now a view for in-place changes and the frame obligation 'H unchanged' of sdepth fails (deductive detection)"),
+    "seed_C13d": ("C13", "time-reversed cold start (pre-start clock written as start_time - dt instead of step2time(-1))", ""),
+    "seed_C15d": ("C15", "sloping bottom with particles over different depths, none of them below the deepest occupied bottom (bottom reflection guarded by Z.max() > h.max())", ""),
+    "seed_C18d": ("C18", "a v1 YAML file using an anchor/alias for two output variables with ncformat != f4 (shared dict popped in place, new default f4)", ""),
+    "seed_C19d": ("C19", "an output plug-in without a layout attribute + a particle killed by the IBM (compactify only when layout == 'sparse')", ""),
+    "seed_C20d": ("C20", "a subgrid edge beyond the grid by more than i0 (negative-index handling by modulo wraps illegal limits into range before the sanity check)", ""),
 }
 
 
